@@ -21,13 +21,19 @@ type symGen struct {
 
 type symFlags struct {
 	optGrammar, optParser, basicLatin, leftRec, nolint bool
-	altEntry                                         []string
+	altEntry                                           []string
 }
 
-// symGenerate replays main() from ParseReader to BuildParser. The static-code
-// template expansion (text/template + regexp on constants) is skipped and
-// goimports is not run: both are outside the engine's reach and are assumed
-// not to depend on the grammar-specific state examined here.
+// symSkipStatic: harnesses that explore many accepted grammars and do not look
+// at the runtime text skip the expansion of the static-code template (about
+// 700 000 interpreter steps per generation); a declared stub where it is set.
+var symSkipStatic bool
+
+// symGenerate replays main() from ParseReader to BuildParser, including the
+// expansion of the static-code template (text/template and regexp run natively
+// on their concrete arguments: engine intrinsics). goimports is not run: it is
+// outside the engine's reach and is assumed not to depend on the
+// grammar-specific state examined here.
 func symGenerate(text []byte, f symFlags) (res symGen) {
 	defer func() {
 		if p := recover(); p != nil {
@@ -41,7 +47,9 @@ func symGenerate(text []byte, f symFlags) (res symGen) {
 			}
 		}
 	}()
-	symSkip("(*github.com/mna/pigeon/builder.builder).writeStaticCode")
+	if symSkipStatic {
+		symSkip("(*github.com/mna/pigeon/builder.builder).writeStaticCode")
+	}
 	g, err := Parse("", text)
 	if err != nil {
 		res.perr = err
